@@ -570,6 +570,10 @@ func writeEvidence(prop, tier string, seed int, rr *runResult, groups []*oblGrou
 		"integers are mathematical (no overflow modelling)",
 		"slices and strings are value sequences; maps are values updated in place through their variable (no aliasing between two names of one slice/map)",
 		"termination is verified only where a decreases clause exists",
+		"slice aliasing is not modelled; a syntactic guard (S.alias-append / S.alias-mutate) covers append and in-place library mutators applied to a variable that aliases a slice the function does not own - other aliasing patterns are not detected",
+		"the Go heap has no dangling references (engine-supplied): a pointer field holds nil or an allocated object, and a cell that still has the content of its heap epoch start references only objects that existed then",
+		"iterators handed out by /repo functions with a `preserves` frame are assumed to respect that frame when run by the caller; the frame is proved on every returned literal of a non-trusted function (mutual recursion: assume-guarantee, sound for terminating runs)",
+		"engine-derived facts need no proof obligation because they hold by construction: iteration summaries (paths that complete an iteration, Skolemised), range facts of canonical index loops, monotone counters of `for i := e0; ...; i++` loops whose body does not assign i",
 	)
 	for _, r := range rr.results {
 		for _, e := range r.Externs {
